@@ -403,3 +403,17 @@ def r5(ctx, F, rule, sfx):
     r, _ = ip.call_body(c, [ip.ref_to(cv), ip.ref_to(RF.sym('fi'), '&usize')])
     ctx.evaluations += ip.evaluations
     ctx.check(rule, 'faces-maps-indices' + sfx, repr(I.frozen(r)) == 'vor.faces[fi]', repr(I.frozen(r))[:80], 'voronoi.faces[i]', where(c), key_extra='faces-map')
+    # ... over ALL of the cell's indices (nothing skipped or truncated; the order is that of the slice or its reverse)
+    ipf = I.Interp(F, no_inline=[fi['path']])
+    rv, _ = ipf.call_body(fb, [ipf.ref_to(me), ipf.ref_to(vor)])
+    ctx.evaluations += ipf.evaluations
+    ch, src = stream_chain(I.frozen(rv))
+    names = [n for n, _ in ch if n != 'rev']
+    ok = names in (['map', 'iter'], ['map', 'iter', 'face_indices']) and ('face_indices' in repr(src) or 'face_indices' in names)
+    ctx.check(rule, 'faces-over-all-indices' + sfx, ok, '%s over %s' % (' <- '.join(n for n, _ in ch), repr(src)[:60]), 'map over iter() of face_indices(voronoi), unfiltered', where(fb), key_extra='faces-stream')
+    # the consuming accessor hands out the same face list
+    inf = F.body_by_suffix('Voronoi::into_faces')
+    ipi = I.Interp(F)
+    outv, _ = ipi.call_body(inf, [vor])
+    ctx.evaluations += ipi.evaluations
+    ctx.check(rule, 'into_faces-is-the-face-list' + sfx, repr(I.frozen(outv)) == 'vor.faces', repr(I.frozen(outv))[:80], 'self.faces', where(inf), key_extra='into-faces')
